@@ -676,6 +676,146 @@ func (p *producer) perturb(g *maskkit.Gen, gram []maskkit.Path) ([]maskkit.Path,
 	return gram, "none"
 }
 
+// fieldOf resolves a name / id segment in the struct type t.
+func fieldOf(g *maskkit.Gen, t *maskkit.Ty, sg maskkit.PSeg) *maskkit.Field {
+	if t == nil || t.Kind != "struct" {
+		return nil
+	}
+	fs := g.D.Structs[t.Name]
+	for i := range fs {
+		if (sg.Kind == "name" && fs[i].Name == sg.Name) || (sg.Kind == "id" && int64(fs[i].ID) == sg.ID) {
+			return &fs[i]
+		}
+	}
+	return nil
+}
+
+func overlap(a, b maskkit.PSeg) bool {
+	for _, x := range a.Ints {
+		for _, y := range b.Ints {
+			if x == y {
+				return true
+			}
+		}
+	}
+	for _, x := range a.Strs {
+		for _, y := range b.Strs {
+			if x == y {
+				return true
+			}
+		}
+	}
+	return false
+}
+
+// extendSubset stays inside the domain: for a path with a key group of >= 2 members that goes
+// on with a struct field, it adds a path that extends a STRICT SUBSET of the members with
+// another field.  The second result are paths (never given to the library) below the other
+// members: positions that must not be selected by the extension.
+func (p *producer) extendSubset(g *maskkit.Gen, gram []maskkit.Path) (maskkit.Path, []maskkit.Path, bool) {
+	r := p.r
+	for try := 0; try < 6 && len(gram) > 0; try++ {
+		q := gram[r.Intn(len(gram))]
+		for i, sg := range q {
+			n := len(sg.Ints) + len(sg.Strs)
+			if (sg.Kind != "idx" && sg.Kind != "keyi" && sg.Kind != "keys") || n < 2 || i+1 >= len(q) {
+				continue
+			}
+			if q[i+1].Kind != "name" && q[i+1].Kind != "id" {
+				continue
+			}
+			et := g.TypeAt(q[:i+1])
+			if et == nil || et.Kind != "struct" {
+				continue
+			}
+			// fields already used below an overlapping group at this node
+			used := map[int32]bool{}
+			usedN := map[string]bool{}
+			pre := maskkit.Path(q[:i]).Render()
+			bad := false
+			for _, p2 := range gram {
+				if len(p2) <= i || maskkit.Path(p2[:i]).Render() != pre || p2[i].Kind != sg.Kind || !overlap(p2[i], sg) {
+					continue
+				}
+				if len(p2) == i+1 {
+					bad = true // a path ends at the members: any extension is a prefix conflict
+					break
+				}
+				if f := fieldOf(g, et, p2[i+1]); f != nil {
+					used[f.ID], usedN[f.Name] = true, true
+				} else {
+					bad = true // a struct star below the members
+				}
+			}
+			if bad {
+				continue
+			}
+			var free []maskkit.Field
+			for _, f := range g.D.Structs[et.Name] {
+				if !used[f.ID] && !usedN[f.Name] && g.D.Ft(f.Ty) != "Invalid" {
+					free = append(free, f)
+				}
+			}
+			if len(free) == 0 {
+				continue
+			}
+			f2 := free[r.Intn(len(free))]
+			// a strict, non-empty subset of the members
+			k := r.Range(1, n-1)
+			sub := maskkit.PSeg{Kind: sg.Kind}
+			rest := maskkit.PSeg{Kind: sg.Kind}
+			perm := r.Intn(n)
+			for j := 0; j < n; j++ {
+				jj := (j + perm) % n
+				into := &rest
+				if j < k {
+					into = &sub
+				}
+				if sg.Kind == "keys" {
+					into.Strs = append(into.Strs, sg.Strs[jj])
+				} else {
+					into.Ints = append(into.Ints, sg.Ints[jj])
+				}
+			}
+			fseg := maskkit.PSeg{Kind: "name", Name: f2.Name}
+			if f2.ID >= 0 && r.Chance(1, 2) {
+				fseg = maskkit.PSeg{Kind: "id", ID: int64(f2.ID)}
+			}
+			var tail []maskkit.Path
+			g.Select(f2.Ty, r.Range(0, 1), append(append(maskkit.Path(nil), q[:i]...), sub, fseg), &tail)
+			if len(tail) == 0 {
+				continue
+			}
+			np := tail[0]
+			other := append(maskkit.Path(nil), np...)
+			other[i] = rest
+			return np, []maskkit.Path{other}, true
+		}
+	}
+	return nil, nil, false
+}
+
+// mustProbes: the positions of paths that were not given to the library, and just below them
+func (p *producer) mustProbes(g *maskkit.Gen, only []maskkit.Path) ([][]maskkit.QKey, []string) {
+	var qs [][]maskkit.QKey
+	var gps []string
+	for _, path := range only {
+		for _, q := range g.Expansions(path, 4) {
+			ok := len(q) > 0
+			for _, x := range q {
+				if x.Kind == "f" && (x.Int > 32767 || x.Int < -32768) {
+					ok = false
+				}
+			}
+			if ok {
+				qs = append(qs, q)
+			}
+		}
+		gps = append(gps, path.Render())
+	}
+	return qs, gps
+}
+
 var mutChars = []string{"$", ".", "[", "]", "{", "}", ",", "*", "\"", "\\", "0", "7", "a", "x", "-", "\"k\"", "99999999999999999999", "4294967296", "\\n", " "}
 
 // inFragment: the escapes of strconv.Unquote the model covers (see coq/Mask/Path.v)
@@ -1099,6 +1239,17 @@ func main() {
 			"$.li[1,2].y", "$.li[2,1].y", "$.mi{1,2}.y", "$.mi{2,1}.y", "$.ms{\"a\",\"b\"}.y", "$.ms{\"b\",\"a\"}.y")
 		p.runPaths("corpus", c.d, c.black, renderAll(c.gram), c.gram, true, probes, gps, p.variantsOf(c.gram))
 	}
+	// corpus: a key group, then a path that extends only some members of the group (in the
+	// domain: the other members must not gain the extension)
+	for _, black := range []bool{false, true} {
+		gram := []maskkit.Path{P(N("li"), Idx(1, 2), N("x")), P(N("li"), Idx(1), N("y")),
+			P(N("mi"), KI(7, 8), N("x")), P(N("mi"), KI(8), N("self"), N("y")),
+			P(N("ms"), KS("x", "y"), N("x")), P(N("ms"), KS("x"), N("y"))}
+		only := []maskkit.Path{P(N("li"), Idx(2), N("y")), P(N("mi"), KI(7), N("self"), N("y")), P(N("ms"), KS("y"), N("y"))}
+		probes, gps := p.probesFor(gb, gram, 24)
+		mq, mg := p.mustProbes(gb, only)
+		p.runPaths("corpus", basic, black, renderAll(gram), gram, true, append(mq, probes...), append(mg, gps...), p.variantsOf(gram))
+	}
 	// corpus, not from the grammar: repaired panics / hang, malformed paths that are accepted
 	rawCorpus := [][]string{
 		{"$.99999999999999999999"}, {"$.4294967296"}, {"$.li[99999999999999999999]"}, {"$.li[4294967296]"},
@@ -1160,7 +1311,20 @@ func main() {
 			} else {
 				gram = shuffled(r, gram)
 			}
+			var only []maskkit.Path
+			if kind == "grammar" && r.Chance(1, 2) {
+				if np, others, ok := p.extendSubset(g, gram); ok {
+					gram = append(gram, np)
+					only = others
+					kind = "grammar-subset-extension"
+				}
+			}
 			probes, gps := p.probesFor(g, gram, nprobe)
+			if len(only) > 0 {
+				mq, mg := p.mustProbes(g, only)
+				probes = append(mq, probes...)
+				gps = append(mg, gps...)
+			}
 			p.runPaths(kind, d, black, renderAll(gram), gram, true, probes, gps, p.variantsOf(gram))
 			// the same list with one path mutated as text: compared with the model, not with the spec
 			if len(gram) > 0 && r.Chance(1, 3) {
